@@ -101,6 +101,178 @@ def fullSum {K : Type} [Add K] [Mul K] [OfNat K 0] {r : Nat} (ι : Rat → K) (p
     Tensor r K :=
   fun idx => pts.foldl (fun acc p => acc + p.2 idx * ι p.1) 0
 
+/-! ### syntax of Cartesian tensor formulas and their grades (semantics and the covariance theorem:
+    `WB/Lemmas/C07Expr.lean`, `Props/C07.lean: tensor_expr_equivariant`) -/
+
+/-- operations on the leading indices -/
+inductive TOp : Nat → Nat → Type
+  | contr (r : Nat) : TOp (r + 2) r            -- δ-contraction of the first two indices
+  | eps (r : Nat) : TOp (r + 2) (r + 1)        -- ε-contraction of the first two indices: one new first index
+  | swap (r : Nat) : TOp (r + 2) (r + 2)       -- transposition of the first two indices
+  | under {r s : Nat} : TOp r s → TOp (r + 1) (s + 1)   -- the same operation behind the first index
+  | comp {r s u : Nat} : TOp s u → TOp r s → TOp r u
+
+/-- does the operation contain an odd number of ε's? -/
+def TOp.flips : {r s : Nat} → TOp r s → Bool
+  | _, _, .contr _ => false
+  | _, _, .eps _ => true
+  | _, _, .swap _ => false
+  | _, _, .under f => f.flips
+  | _, _, .comp g f => g.flips != f.flips
+
+/-! ### expressions -/
+
+inductive TExpr (A : Nat → Type) : Nat → Type
+  | atom {r : Nat} : A r → TExpr A r
+  | mul {r s : Nat} : TExpr A r → TExpr A s → TExpr A (s + r)
+  | add {r : Nat} : TExpr A r → TExpr A r → TExpr A r
+  | zsmul {r : Nat} : Int → TExpr A r → TExpr A r
+  | app {r s : Nat} : TOp r s → TExpr A r → TExpr A s
+  | deriv {r : Nat} : TExpr A r → TExpr A (r + 1)     -- k-derivative, the new index first
+
+/-- transport along an equality of ranks (ranks of products / contractions are sums that the elaborator does not
+    normalise by itself) -/
+def TExpr.cast {A : Nat → Type} {r s : Nat} (h : r = s) (e : TExpr A r) : TExpr A s := h ▸ e
+
+section Grades
+variable {A : Nat → Type} (axA trA : ∀ r, A r → Bool)
+
+/-- pseudo-tensor (picks up det R under improper operations)? -/
+def TExpr.axial : {r : Nat} → TExpr A r → Bool
+  | _, .atom a => axA _ a
+  | _, .mul x y => x.axial != y.axial
+  | _, .add x _ => x.axial
+  | _, .zsmul _ x => x.axial
+  | _, .app op x => op.flips != x.axial
+  | _, .deriv x => x.axial
+
+/-- odd under time reversal? -/
+def TExpr.trOdd : {r : Nat} → TExpr A r → Bool
+  | _, .atom a => trA _ a
+  | _, .mul x y => x.trOdd != y.trOdd
+  | _, .add x _ => x.trOdd
+  | _, .zsmul _ x => x.trOdd
+  | _, .app _ x => x.trOdd
+  | _, .deriv x => !x.trOdd
+
+/-- the two terms of every sum carry the same grade -/
+def TExpr.wf : {r : Nat} → TExpr A r → Bool
+  | _, .atom _ => true
+  | _, .mul x y => x.wf && y.wf
+  | _, .add x y => x.wf && y.wf && (x.axial axA == y.axial axA) && (x.trOdd trA == y.trOdd trA)
+  | _, .zsmul _ x => x.wf
+  | _, .app _ x => x.wf
+  | _, .deriv x => x.wf
+
+end Grades
+
+/-! ### the atoms and the structure terms of the per-k integrands behind the calculators (transcribed once per class
+    from `formula/covariant.py` / `calculators/static.py` / `calculators/tabulate.py`; index ORDER is not transcribed -
+    a transposition changes neither rank nor grade).  The check compares `PTerm.grade` of every term with the rank and
+    the declared transformTR / transformInv of the live calculator on every run. -/
+
+/-- atoms: per-k quantities whose covariance is a hypothesis (tested by the oracles) -/
+inductive PAtom : Nat → Type
+  | scalar : PAtom 0      -- band energy E_n(k), occupation f(E), any invariant scalar
+  | delta : PAtom 2       -- Kronecker δ
+  | omega : PAtom 1       -- Berry curvature as a (pseudo-)vector
+  | morb : PAtom 1        -- orbital moment
+  | spin : PAtom 1        -- spin
+  | metric : PAtom 2      -- quantum metric
+
+def PAtom.axial : ∀ r, PAtom r → Bool
+  | _, .scalar => false | _, .delta => false | _, .omega => true | _, .morb => true | _, .spin => true
+  | _, .metric => false
+
+def PAtom.trOdd : ∀ r, PAtom r → Bool
+  | _, .scalar => false | _, .delta => false | _, .omega => true | _, .morb => true | _, .spin => true
+  | _, .metric => false
+
+abbrev PTerm := TExpr PAtom
+
+/-- predicted (rank, inversion transform is odd, time-reversal transform is odd, well-formed):
+    `transformInv = (-1)^(rank + axial)`, `transformTR = (-1)^trOdd` -/
+def PTerm.grade {r : Nat} (e : PTerm r) : Nat × Bool × Bool × Bool :=
+  (r, (r % 2 == 1) != e.axial PAtom.axial, e.trOdd PAtom.trOdd, e.wf PAtom.axial PAtom.trOdd)
+
+namespace Term
+def E : PTerm 0 := .atom .scalar
+def v : PTerm 1 := .deriv E                       -- velocity = dE/dk
+def mass : PTerm 2 := .deriv v                    -- inverse mass
+def der3E : PTerm 3 := .deriv mass
+def omega : PTerm 1 := .atom .omega
+def dOmega : PTerm 2 := .deriv omega
+def d2Omega : PTerm 3 := .deriv dOmega
+def morb : PTerm 1 := .atom .morb
+def dMorb : PTerm 2 := .deriv morb
+def d2Morb : PTerm 3 := .deriv dMorb
+def spin : PTerm 1 := .atom .spin
+def dSpin : PTerm 2 := .deriv spin
+def d2Spin : PTerm 3 := .deriv dSpin
+def metric : PTerm 2 := .atom .metric
+def dMetric : PTerm 3 := .deriv metric
+def delta : PTerm 2 := .atom .delta
+
+-- static calculators
+def DOS : PTerm 0 := E
+def CumDOS : PTerm 0 := E
+def Spin : PTerm 1 := spin
+def Morb : PTerm 1 := .add morb (.zsmul (-2) omega)                               -- H+ - 2 Ef Ω
+def GME_orb_FermiSurf : PTerm (1 + 1) := .add (.mul v morb) (.zsmul (-2) (.mul v omega))
+def GME_orb_FermiSea : PTerm 2 := .add dMorb (.zsmul (-2) dOmega)
+def GME_spin_FermiSea : PTerm 2 := dSpin
+def GME_spin_FermiSurf : PTerm (1 + 1) := .mul v spin
+def AHC : PTerm 1 := omega
+def Ohmic_FermiSea : PTerm 2 := mass
+def Ohmic_FermiSurf : PTerm (1 + 1) := .mul v v
+def massMass : PTerm (2 + 2) := .mul mass mass
+def velMassVel : PTerm (2 + 2) := .cast rfl (.mul v (.mul mass v) : PTerm ((1 + 2) + 1))
+/-- ε ε (m ⊗ m): two ε-contractions, rank 4 → 3 → 2 -/
+def Hall_classic_FermiSea : PTerm (0 + 1 + 1) :=
+  .app (.under (.eps 0)) (.cast rfl (.app (.eps 2) massMass : PTerm (2 + 1)) : PTerm ((0 + 2) + 1))
+def Hall_classic_FermiSurf : PTerm (0 + 1 + 1) :=
+  .app (.under (.eps 0)) (.cast rfl (.app (.eps 2) velMassVel : PTerm (2 + 1)) : PTerm ((0 + 2) + 1))
+def BerryDipole_FermiSurf : PTerm (1 + 1) := .mul v omega
+def BerryDipole_FermiSea : PTerm 2 := .app (.swap 0) dOmega
+def NLAHC_FermiSurf : PTerm (1 + 1) := BerryDipole_FermiSurf
+def NLAHC_FermiSea : PTerm 2 := BerryDipole_FermiSea
+def NLDrude_FermiSea : PTerm 3 := der3E
+def NLDrude_FermiSurf : PTerm (1 + 2) := .mul mass v
+def NLDrude_Fermider2 : PTerm ((1 + 1) + 1) := .mul v (.mul v v)
+def AHC_Zeeman_spin : PTerm (1 + 1) := .mul omega spin
+def OmegaOmega : PTerm (1 + 1) := .mul omega omega
+def AHC_Zeeman_orb : PTerm (1 + 1) := .mul omega morb
+def QuantumMetric_FermiSea : PTerm 2 := metric
+def QuantumMetric_Vel_DQ : PTerm (3 + 1) := .mul v dMetric
+def NLDrude_Zeeman_spin : PTerm (1 + 3) :=
+  .add (.zsmul (-1) (.mul der3E spin)) (.cast rfl (.mul d2Spin v : PTerm (1 + 3)))
+def NLDrude_Zeeman_orb : PTerm (1 + 3) :=
+  .add (.zsmul (-1) (.mul der3E morb)) (.cast rfl (.mul d2Morb v : PTerm (1 + 3)))
+def NLDrude_Zeeman_orb_Omega : PTerm (1 + 3) :=
+  .add (.zsmul (-1) (.mul der3E omega)) (.cast rfl (.mul d2Omega v : PTerm (1 + 3)))
+/-- `emcha_surf`: v ∂Ω v, m Ω v, and δ ⊗ (contraction of two indices) of both -/
+def vDOmegaV : PTerm (2 + 2) := .cast rfl (.mul v (.mul dOmega v) : PTerm ((1 + 2) + 1))
+def massOmegaV : PTerm (2 + 2) := .cast rfl (.mul mass (.mul omega v) : PTerm ((1 + 1) + 2))
+def eMChA_FermiSurf : PTerm (2 + 2) :=
+  .add (.add vDOmegaV massOmegaV)
+    (.add (.mul delta (.app (.contr 2) massOmegaV)) (.mul delta (.app (.contr 2) vDOmegaV)))
+
+-- tabulators
+def tabEnergy : PTerm 0 := E
+def tabVelocity : PTerm 1 := v
+def tabInvMass : PTerm 2 := mass
+def tabDer3E : PTerm 3 := der3E
+def tabBerryCurvature : PTerm 1 := omega
+def tabDerBerryCurvature : PTerm 2 := dOmega
+def tabDer2BerryCurvature : PTerm 3 := d2Omega
+def tabSpin : PTerm 1 := spin
+def tabDerSpin : PTerm 2 := dSpin
+def tabDer2Spin : PTerm 3 := d2Spin
+def tabOrbitalMoment : PTerm 1 := morb
+def tabDerOrbitalMoment : PTerm 2 := dMorb
+def tabDer2OrbitalMoment : PTerm 3 := d2Morb
+end Term
+
 /-! ### driver -/
 open WB.IO
 
